@@ -57,12 +57,14 @@ def padPkcs1Dec (m k : Nat) : Option (Nat × Nat) :=
   if byteAt m (k - 2) ≠ 2 then none else
   let ml := pkcs1Scan m k (k - 2)
   -- *p_len = (k - 1) - (m_len - 1); result = (m_len > 0 ? RLC_OK : RLC_ERR)
+  -- (no test of the padding length k - 3 - m_len ≥ 8: finding C06-2; a repaired pad_pkcs1 needs that conjunct here)
   if ml > 0 then some (m % 256 ^ ml, k - ml) else none
 
 /-- number of digits `bn_trim` leaves (at least one) -/
 def usedDigits (w m : Nat) : Nat := if m = 0 then 1 else Nat.log2 m / w + 1
 
-/-- `for (i = 0; i < t->used; i++) m->dp[i] ^= t->dp[i];` with `m->used` unchanged: digits of t above m->used are lost -/
+/-- `for (i = 0; i < t->used; i++) m->dp[i] ^= t->dp[i];` with `m->used` unchanged: digits of t above m->used are lost
+    (finding C06-1; once pad_pkcs2 is repaired this becomes `m ^^^ t`) -/
 def xorDigits (w m t : Nat) : Nat := (m ^^^ t) % 2 ^ (w * usedDigits w m)
 
 def padPkcs2Dec (H : Hash) (w : Nat) (m k : Nat) : Option (Nat × Nat) :=
